@@ -137,7 +137,8 @@ def spec_check(op, args, got, spec, clean):
     if op == 39:
         if is_err(got):
             return "metrics failed"
-        return None if got[:4] == [spec[0], spec[1], spec[2], spec[3]] else "metrics figures differ from the accounting"
+        return None if got[:4] == [spec[0], spec[1], spec[2], spec[3]] and got[7] == spec[4] else \
+            "metrics figures differ from the accounting"
     if op == 41:
         if is_err(got):
             return "lookup failed"
